@@ -253,6 +253,9 @@ func (fr *Frame) siteOrd(kind string, in ssa.Instruction) int {
 						if b2.Name() == "close" {
 							name = "close"
 						}
+						if b2.Name() == "delete" {
+							name = "delete"
+						}
 					} else {
 						name = "call:" + shortCallee(&v.Call)
 					}
@@ -325,8 +328,8 @@ func (fr *Frame) dumpSites(x *Exec) {
 			case *ssa.UnOp:
 				name = "recv"
 			case *ssa.Call:
-				if _, ok := v.Call.Value.(*ssa.Builtin); ok {
-					name = "close"
+				if b2, ok := v.Call.Value.(*ssa.Builtin); ok {
+					name = b2.Name()
 				} else {
 					name = "call:" + shortCallee(&v.Call)
 				}
